@@ -134,6 +134,15 @@ func newVM(limit int) *otto.Otto {
 	if limit != 10 {
 		vm.SetStackTraceLimit(limit)
 	}
+	// hostrun runs a nested script through the Go API and re-panics its error
+	vm.Set("hostrun", func(call otto.FunctionCall) otto.Value {
+		src, _ := call.Argument(0).ToString()
+		v, err := call.Otto.Run(src)
+		if err != nil {
+			panic(err)
+		}
+		return v
+	})
 	vm.Set("host", func(call otto.FunctionCall) otto.Value {
 		v, err := call.Argument(0).Call(otto.UndefinedValue())
 		if err != nil {
@@ -374,6 +383,9 @@ func layouts(thorough bool) []layout {
 		}
 		for p := preKind(0); p < nPre; p++ {
 			for t := 0; t < nt; t++ {
+				if p.isThrow() && (t == 1 || t == 4 || (!thorough && t == 3)) {
+					continue // excursions left by an exception: LF, CR (and U+2028 in thorough)
+				}
 				lay := layout{sepLine: sepLine, pre: p, term: t}
 				if t != 0 && !lay.hasBreak() {
 					continue // no line terminator in the program: identical to LF
@@ -390,6 +402,8 @@ var stackLayoutsQuick = []layout{
 	{sepLine: true, pre: preCall, term: 2},
 	{sepLine: false, pre: preEvalL, term: 0},
 	{sepLine: true, pre: preBr2, term: 3},
+	{sepLine: true, pre: preThrowEval, term: 0},
+	{sepLine: true, pre: preThrowEvalL, term: 2},
 }
 
 func stackLayouts(thorough bool) []layout {
@@ -405,6 +419,13 @@ func stackLayouts(thorough bool) []layout {
 			layout{sepLine: true, pre: preNone, term: 0, rotate: true},
 			layout{sepLine: true, pre: preStmt, term: 2, rotate: true},
 			layout{sepLine: false, pre: preTab, term: 3, rotate: true},
+			layout{sepLine: true, pre: preThrowEvalCall, term: 0},
+			layout{sepLine: true, pre: preThrowIndirect, term: 2},
+			layout{sepLine: false, pre: preThrowFunction, term: 0},
+			layout{sepLine: true, pre: preThrowGetter, term: 3},
+			layout{sepLine: true, pre: preThrowHost, term: 0},
+			layout{sepLine: true, pre: preThrowCallee, term: 2},
+			layout{sepLine: false, pre: preThrowCallee2, term: 0},
 		)
 	}
 	return l
@@ -561,9 +582,9 @@ func runStack3(r *engine.Run) {
 	ks := ids("unresolvable", "throw-new-RangeError", "write-dot-null")
 	lays := stackLayouts(r.Thorough())
 	if !r.Thorough() {
-		lays = lays[:2]
+		lays = []layout{lays[0], lays[1], lays[4]}
 	} else {
-		lays = []layout{lays[0], lays[1], lays[3], lays[10]}
+		lays = []layout{lays[0], lays[1], lays[3], lays[12], lays[4], lays[5]}
 	}
 	alpha := stackShapesSmall
 	if r.Thorough() {
@@ -627,7 +648,7 @@ func runStack3(r *engine.Run) {
 func runStack4(r *engine.Run) {
 	ks := ids("unresolvable", "throw-new-TypeError")
 	all := stackLayouts(true)
-	lays := []layout{all[1], all[10]}
+	lays := []layout{all[1], all[12], all[5]}
 	alpha := stackShapesSmall
 	r.Bound("constructs", fmt.Sprint(len(ks)))
 	r.Bound("shape_quadruples", fmt.Sprint(len(alpha)*len(alpha)*len(alpha)*len(alpha)))
